@@ -3,7 +3,7 @@
    import_new_items (= MergePure.p_import). *)
 From Coq Require Import Permutation.
 From AV Require Import Base.Bytes Base.Outcome Hash.HashModel Tree.Heap Tree.Ops Tree.Script Tree.Load Tree.MergeSpec
-  Tree.MergePure Tree.LoadProofsBase Tree.LoadRefineBase Tree.LoadRefineWalk Tree.LoadRefineKeys.
+  Tree.MergePure Tree.LoadProofsBase Tree.LoadRefineBase Tree.LoadRefineWalk Tree.LoadRefineKeys Tree.LoadRefinePure.
 Open Scope string_scope.
 Open Scope list_scope.
 Open Scope N_scope.
@@ -328,27 +328,34 @@ Inductive Imp3 (bcontent : list (htree + cdata)) : list (id * N) -> list atree -
 Section Import.
 Variable T : tables.
 
+Definition imports_a (nf : N) (nbs : list atree) : list (atree + cdata) := map (fun nb => inl (a_import nf nb)) nbs.
+
 Lemma import_phase ty ia pa_p name attrs loc comment nf minv bcontent :
   forall bs nbs bsp, Imp3 bcontent bs nbs bsp ->
-  forall idx cur w c2,
+  forall idx cur w ds,
     w_nodes w ia = Some (mkNode pa_p name ty (map citem_of cur) attrs loc comment) ->
     AbsItems w cur -> Forall (AbsA w) nbs -> NoDup (ia :: aids_items cur ++ List.concat (map aids nbs)) ->
-    p_import T ty bcontent bsp idx nf minv (erase_items cur) = Val (OK c2) ->
+    p_dests T ty bcontent bsp idx minv (shape (erase_items cur)) = Val (OK ds) ->
     exists w2 cur2,
       import_new_items T ia bs idx nf minv w = Val (OK tt, w2) /\
       w_nodes w2 ia = Some (mkNode pa_p name ty (map citem_of cur2) attrs loc comment) /\
-      AbsItems w2 cur2 /\ erase_items cur2 = c2 /\
+      AbsItems w2 cur2 /\ cur2 = ins_all ds (imports_a nf nbs) cur /\
       same_except w w2 (ia :: map a_id nbs) /\
       Permutation (aids_items cur2) (aids_items cur ++ List.concat (map aids nbs)).
 Proof.
-  intros bs nbs bsp H3. induction H3 as [|bid pos nb pid bs nbs bsp Eid Hnth H3 IH]; intros idx cur w c2 Hia HI HB Hnd Hp.
-  - cbn [p_import] in Hp. injection Hp as <-. exists w, cur. cbn [import_new_items].
+  intros bs nbs bsp H3. induction H3 as [|bid pos nb pid bs nbs bsp Eid Hnth H3 IH]; intros idx cur w ds Hia HI HB Hnd Hp.
+  - cbn [p_dests] in Hp. injection Hp as <-. exists w, cur. cbn [import_new_items].
     split; [reflexivity|]. split; [exact Hia|]. split; [exact HI|]. split; [reflexivity|].
     split; [apply same_except_refl|]. cbn. rewrite app_nil_r. apply Permutation_refl.
-  - cbn [p_import] in Hp. rewrite Hnth in Hp. rewrite erase_name in Hp.
-    destruct (p_insert_range T ty (erase_items cur) (a_name nb) minv) as [[[fp lp]|e]| |] eqn:Er; cbn [bind] in Hp; try discriminate.
+  - cbn [p_dests] in Hp. rewrite Hnth in Hp. rewrite erase_name in Hp.
+    destruct (p_insert_range_sh T ty (shape (erase_items cur)) (a_name nb) minv) as [[[fp lp]|e]| |] eqn:Er0; cbn [bind] in Hp; try discriminate.
+    assert (Er : p_insert_range T ty (erase_items cur) (a_name nb) minv = Val (OK (fp, lp))) by (rewrite p_insert_range_is_sh; exact Er0).
+    unfold shape in Hp at 1. rewrite map_length in Hp. fold (shape (erase_items cur)) in Hp.
     set (dest := N.min (N.max (pos + idx) fp) lp) in *.
     destruct (N.of_nat (List.length (erase_items cur)) <? dest) eqn:Ed; [discriminate|].
+    destruct (p_dests T ty bcontent bsp (idx + 1) minv (insert_at (shape (erase_items cur)) (N.to_nat dest) (Some (a_name nb))))
+      as [[ds'|e]| |] eqn:Ep'; cbn [bind] in Hp; try discriminate.
+    injection Hp as <-.
     inversion HB as [|? ? HAnb HB']; subst.
     cbn [map List.concat] in Hnd. inversion Hnd as [|? ? Hni Hnd']; subst.
     (* facts about the footprints *)
@@ -413,9 +420,10 @@ Proof.
       unfold cur'. eapply perm_trans; [|apply Permutation_app_tail; apply Permutation_sym; apply aids_items_insert].
       unfold nb', a_import. rewrite aids_set_local. rewrite (app_assoc (aids_items cur)).
       apply Permutation_app_tail. apply Permutation_app_comm. }
-    assert (Hp3 : p_import T ty bcontent bsp (idx + 1) nf minv (erase_items cur') = Val (OK c2)).
-    { unfold cur'. rewrite erase_items_insert. unfold nb'. rewrite erase_import. exact Hp. }
-    destruct (IH (idx + 1) cur' w3 c2 Hw3ia HI3 HB3 Hnd3 Hp3) as (w4 & cur2 & E4 & Hia4 & HI4 & Ee4 & S4 & P4).
+    assert (Hp3 : p_dests T ty bcontent bsp (idx + 1) minv (shape (erase_items cur')) = Val (OK ds')).
+    { unfold cur'. rewrite erase_items_insert, shape_insert. cbn [item_name_of]. unfold nb'. rewrite erase_import.
+      replace (h_name (h_import nf (erase nb))) with (a_name nb) by (destruct nb; reflexivity). exact Ep'. }
+    destruct (IH (idx + 1) cur' w3 ds' Hw3ia HI3 HB3 Hnd3 Hp3) as (w4 & cur2 & E4 & Hia4 & HI4 & Ee4 & S4 & P4).
     exists w4, cur2. split; [exact E4|]. split; [exact Hia4|]. split; [exact HI4|]. split; [exact Ee4|]. split.
     + apply (same_except_trans w w3 w4 [ia; a_id nb] (ia :: map a_id nbs)); [| | |exact S4].
       * intros y [<-|[<-|[]]]; [left; reflexivity|right; left; reflexivity].
